@@ -80,19 +80,10 @@ func c18ManyReads(rng *rand.Rand, server string, n int) gProg {
 	return p
 }
 
-func c18Reqs(p gProg) []simReq {
-	rts := gRoutes(p, (&gCase{Prog: p}).abs("/R"))
-	reqs := make([]simReq, len(rts))
-	for i := range rts {
-		reqs[i] = rts[i].Sim
-	}
-	return reqs
-}
-
 // c18HoldOrder keeps request k back for as long as any other call can return: its successors' replies pile up in
 // the controller while later requests keep taking (and, for k > 0, re-using) pages.
 func c18HoldOrder(p gProg, k int, rng *rand.Rand) []int {
-	s := newSim(c18Reqs(p))
+	s := newSim(gSimReqs(p))
 	var out []int
 	for {
 		st := s.started()
@@ -357,12 +348,23 @@ func checkC18(c *lib.Ctx) {
 
 	var jobs []json.RawMessage
 	if c.Replay != "" {
-		var st c18Stream
+		var st struct {
+			c18Stream
+			MaxTx int `json:"max_tx_packet"`
+		}
 		if err := lib.ReadReplay(c.Replay, &st); err != nil {
 			r.Fail(lib.Failure{Kind: "tie", Key: "replay", What: err.Error()})
 			return
 		}
-		jobs = append(jobs, gJSON(st))
+		if st.MaxTx != 0 { // the read-longer-than-a-page observation (F10)
+			top, err := os.MkdirTemp("", "vh-c18-")
+			if err == nil {
+				defer os.RemoveAll(top)
+				c18F10(c, top)
+			}
+			return
+		}
+		jobs = append(jobs, gJSON(st.c18Stream))
 	} else {
 		styles := []string{"uniform", "fifo", "lifo", "first-last"}
 		add := func(fam string, p gProg, modes ...string) {
